@@ -69,6 +69,55 @@ pub enum HOp {
 pub struct Case {
     pub sc: PairScenario,
     pub ops: Vec<HOp>,
+    /// layer B (Client / Server over the virtual switch); when present, `sc` and `ops` are unused
+    #[serde(default)]
+    pub world: Option<WorldCase>,
+}
+
+/// A hostile frame for a connection endpoint; ids are relative to the nonces of the handshake.
+#[derive(Clone, Debug, Serialize, Deserialize)]
+pub enum BFrame {
+    Data { frame: IdSel, nonce: bool, dgs: Vec<HDatagram> },
+    Ack { fbase: IdSel, pbase: IdSel, groups: Vec<HGroup> },
+    Sync { frame: Option<IdSel>, packet: Option<IdSel> },
+    Raw { bytes: Vec<u8>, fix_crc: bool },
+    Disconnect,
+    DisconnectAck,
+    HandshakeError { nonce: IdSel, code: u8 },
+}
+
+#[derive(Clone, Debug, Serialize, Deserialize)]
+pub enum BOp {
+    Tick { dt_us: u32 },
+    /// a raw peer opens a handshake with arbitrary advertised limits
+    HostileSyn { addr: u8, version: u8, nonce: u32, rate: u32, size: u32, alloc: u32 },
+    /// ... and completes it with the nonce the server sent it
+    HostileAck { addr: u8 },
+    /// a frame from a raw peer (connected or not) to the server
+    ToServer { addr: u8, frame: BFrame },
+    /// valid API call: the server application sends to the (possibly hostile) peer
+    ServerSend { addr: u8, ch: u8, mode: u8, size: u32 },
+    ServerDisconnect { addr: u8, now: bool },
+    /// start a real client; if `hostile_server`, the genuine server never reaches it and the harness plays the server
+    StartClient { hostile_server: bool },
+    /// hostile server: answer client k's SYN with arbitrary limits
+    HostileSynAck { k: u8, nonce: u32, rate: u32, size: u32, alloc: u32 },
+    /// a frame "from the server" to real client k
+    ToClient { k: u8, frame: BFrame },
+    ClientSend { k: u8, ch: u8, mode: u8, size: u32 },
+    ClientDisconnect { k: u8, now: bool },
+}
+
+#[derive(Clone, Debug, Serialize, Deserialize)]
+pub struct WorldCase {
+    pub seed: u64,
+    pub server_packet_size: u32,
+    pub server_alloc: u32,
+    pub server_send_rate: u32,
+    pub server_recv_rate: u32,
+    pub client_packet_size: u32,
+    pub client_alloc: u32,
+    pub ops: Vec<BOp>,
 }
 
 fn delta_strategy() -> impl Strategy<Value = i64> {
@@ -125,6 +174,71 @@ fn hostile_op() -> impl Strategy<Value = HOp> {
         3 => (0u8..4, proptest::collection::vec(mutation(), 1..4), prop_oneof![4 => Just(true), 1 => Just(false)]).prop_map(|(back, muts, fix_crc)| HOp::MutateGenuine { back, muts, fix_crc }),
         1 => any::<u16>().prop_map(|back| HOp::ReplayGenuine { back }),
     ]
+}
+
+fn limit_strategy() -> impl Strategy<Value = u32> {
+    prop_oneof![3 => Just(0u32), 2 => Just(1u32), 2 => Just(u32::MAX), 2 => 1u32..3000, 3 => 3000u32..2_000_000, 1 => any::<u32>()]
+}
+
+fn bframe() -> impl Strategy<Value = BFrame> {
+    prop_oneof![
+        5 => (idsel(&[0, 0, 0, 1, 4]), any::<bool>(), proptest::collection::vec(hdatagram(), 0..4)).prop_map(|(frame, nonce, dgs)| BFrame::Data { frame, nonce, dgs }),
+        5 => (idsel(&[2, 2, 3, 3, 4]), idsel(&[2, 2, 3, 3, 4]), proptest::collection::vec(hgroup(), 0..3)).prop_map(|(fbase, pbase, groups)| BFrame::Ack { fbase, pbase, groups }),
+        3 => (proptest::option::of(idsel(&[0, 0, 1, 4])), proptest::option::of(idsel(&[0, 0, 1, 4]))).prop_map(|(frame, packet)| BFrame::Sync { frame, packet }),
+        2 => (proptest::collection::vec(any::<u8>(), 0..60), any::<bool>()).prop_map(|(bytes, fix_crc)| BFrame::Raw { bytes, fix_crc }),
+        1 => Just(BFrame::Disconnect),
+        1 => Just(BFrame::DisconnectAck),
+        1 => (idsel(&[2, 4]), 0u8..3).prop_map(|(nonce, code)| BFrame::HandshakeError { nonce, code }),
+    ]
+}
+
+fn bop() -> impl Strategy<Value = BOp> {
+    prop_oneof![
+        10 => prop_oneof![2 => Just(0u32), 6 => 1_000u32..50_000, 2 => 50_000u32..2_500_000, 1 => 2_500_000u32..25_000_000].prop_map(|dt_us| BOp::Tick { dt_us }),
+        3 => (0u8..4, prop_oneof![6 => Just(3u8), 1 => any::<u8>()], any::<u32>(), limit_strategy(), limit_strategy(), limit_strategy()).prop_map(|(addr, version, nonce, rate, size, alloc)| BOp::HostileSyn { addr, version, nonce, rate, size, alloc }),
+        3 => (0u8..4).prop_map(|addr| BOp::HostileAck { addr }),
+        8 => (0u8..4, bframe()).prop_map(|(addr, frame)| BOp::ToServer { addr, frame }),
+        4 => (0u8..4, 0u8..64, 0u8..4, prop_oneof![3 => 0u32..100, 2 => 100u32..5000, 1 => 5000u32..200_000]).prop_map(|(addr, ch, mode, size)| BOp::ServerSend { addr, ch, mode, size }),
+        1 => (0u8..4, any::<bool>()).prop_map(|(addr, now)| BOp::ServerDisconnect { addr, now }),
+        2 => any::<bool>().prop_map(|hostile_server| BOp::StartClient { hostile_server }),
+        3 => (0u8..3, any::<u32>(), limit_strategy(), limit_strategy(), limit_strategy()).prop_map(|(k, nonce, rate, size, alloc)| BOp::HostileSynAck { k, nonce, rate, size, alloc }),
+        6 => (0u8..3, bframe()).prop_map(|(k, frame)| BOp::ToClient { k, frame }),
+        4 => (0u8..3, 0u8..64, 0u8..4, prop_oneof![3 => 0u32..100, 2 => 100u32..5000, 1 => 5000u32..200_000]).prop_map(|(k, ch, mode, size)| BOp::ClientSend { k, ch, mode, size }),
+        1 => (0u8..3, any::<bool>()).prop_map(|(k, now)| BOp::ClientDisconnect { k, now }),
+    ]
+}
+
+fn world_case(tier: Tier) -> BoxedStrategy<WorldCase> {
+    let size = || prop_oneof![3 => Just(1_000_000u32), 2 => 1u32..5000, 1 => Just(1u32), 1 => 5000u32..4_000_000];
+    (any::<u64>(), size(), size(), prop_oneof![3 => Just(2_000_000u32), 1 => 1u32..5000, 1 => Just(u32::MAX)], prop_oneof![3 => Just(2_000_000u32), 1 => 1u32..5000, 1 => Just(u32::MAX)], size(), size(), proptest::collection::vec(bop(), 1..tier.pick(80, 250)))
+        .prop_map(|(seed, server_packet_size, server_alloc, server_send_rate, server_recv_rate, client_packet_size, client_alloc, ops)| WorldCase { seed, server_packet_size, server_alloc, server_send_rate, server_recv_rate, client_packet_size, client_alloc, ops })
+        .prop_flat_map(|wc| {
+            // most cases start with an established hostile connection on each side, so that the bulk of
+            // the hostile frames reaches connection logic rather than being dropped as strays
+            (Just(wc), prop_oneof![1 => Just(0u8), 3 => Just(1u8), 3 => Just(2u8), 3 => Just(3u8)], any::<u32>(), any::<u32>(), (limit_strategy(), limit_strategy()), (limit_strategy(), limit_strategy()))
+        })
+        .prop_map(|(mut wc, prelude, n1, n2, (r1, a1), (r2, a2))| {
+            let mut pre: Vec<BOp> = Vec::new();
+            if prelude & 1 != 0 {
+                // a raw peer whose advertised limits pass the server's checks, with arbitrary rate / allocation beyond that
+                let alloc = a1.max(wc.server_packet_size.clamp(1, 1_000_000));
+                pre.push(BOp::HostileSyn { addr: 0, version: 3, nonce: n1, rate: r1.max(1), size: 1, alloc });
+                pre.push(BOp::Tick { dt_us: 1000 });
+                pre.push(BOp::HostileAck { addr: 0 });
+                pre.push(BOp::Tick { dt_us: 1000 });
+            }
+            if prelude & 2 != 0 {
+                pre.push(BOp::StartClient { hostile_server: true });
+                pre.push(BOp::Tick { dt_us: 1000 });
+                let alloc = a2.max(wc.client_packet_size.clamp(1, 1_000_000));
+                pre.push(BOp::HostileSynAck { k: 0, nonce: n2, rate: r2.max(1), size: 1, alloc });
+                pre.push(BOp::Tick { dt_us: 1000 });
+            }
+            pre.extend(std::mem::take(&mut wc.ops));
+            wc.ops = pre;
+            wc
+        })
+        .boxed()
 }
 
 pub struct C03;
@@ -228,16 +342,20 @@ impl Check for C03 {
         let p = GenParams { max_ticks: 1, max_sends: 4, max_frags: 3, tail: false, max_fates: 60, ..GenParams::default() };
         let tick = tick_strategy(&p);
         let max_ops = tier.pick(60usize, 200usize);
-        (scenario_strategy(&p), proptest::collection::vec(prop_oneof![3 => tick.prop_map(HOp::Tick), 4 => hostile_op()], 1..max_ops))
-            .prop_map(|(mut sc, ops)| {
-                sc.ticks.clear();
-                Case { sc, ops }
-            })
-            .boxed()
+        let layer_a = (scenario_strategy(&p), proptest::collection::vec(prop_oneof![3 => tick.prop_map(HOp::Tick), 4 => hostile_op()], 1..max_ops)).prop_map(|(mut sc, ops)| {
+            sc.ticks.clear();
+            Case { sc, ops, world: None }
+        });
+        let q = GenParams { max_ticks: 1, max_sends: 1, faults: false, tail: false, max_fates: 1, ..GenParams::default() };
+        let layer_b = (scenario_strategy(&q), world_case(tier)).prop_map(|(mut sc, w)| {
+            sc.ticks.clear();
+            Case { sc, ops: Vec::new(), world: Some(w) }
+        });
+        prop_oneof![3 => layer_a, 2 => layer_b].boxed()
     }
 
     fn cases(&self, tier: Tier) -> u64 {
-        tier.pick(40_000, 3_000_000)
+        tier.pick(120_000, 6_000_000)
     }
 
     fn hang_is_violation(&self) -> bool {
@@ -261,6 +379,9 @@ impl Check for C03 {
     }
 
     fn run(&self, case: &Case) -> CaseResult {
+        if let Some(w) = &case.world {
+            return run_world(w);
+        }
         let mut sc = case.sc.clone();
         // sends appear inside ops; make normalize see them
         sc.ticks = case.ops.iter().filter_map(|o| if let HOp::Tick(t) = o { Some(t.clone()) } else { None }).collect();
@@ -422,4 +543,307 @@ impl Check for C03 {
         }
         CaseResult::ok(reached > 0, classes)
     }
+}
+
+// ------------------------------------------------------------------------------------------------
+// Layer B: Client / Server over the virtual switch
+// ------------------------------------------------------------------------------------------------
+
+use crate::sim::world::*;
+use std::collections::HashMap;
+use std::net::SocketAddr;
+use uflow::verif::{DisconnectAckFrame, DisconnectFrame, HandshakeAckFrame, HandshakeErrorFrame, HandshakeErrorType, HandshakeSynAckFrame, HandshakeSynFrame};
+
+/// What the harness knows about one hostile connection (as the attacker would).
+#[derive(Default, Clone)]
+struct Peer {
+    /// nonce the victim advertised (its tx base) and nonce the attacker advertised (victim's rx base)
+    victim_nonce: Option<u32>,
+    attacker_nonce: Option<u32>,
+}
+
+fn resolve_b(p: &Peer, s: &IdSel, packet_space: bool) -> u32 {
+    let rx = p.attacker_nonce.unwrap_or(0);
+    let tx = p.victim_nonce.unwrap_or(0);
+    let base = match s.rel {
+        0 => rx,
+        1 => rx.wrapping_add(4096),
+        2 => tx,
+        3 => tx.wrapping_add(3),
+        _ => 0,
+    };
+    let base = if packet_space { base & PKT_MASK } else { base };
+    (base as i64).wrapping_add(s.delta) as u32
+}
+
+fn build_bframe(f: &BFrame, p: &Peer) -> Vec<u8> {
+    match f {
+        BFrame::Data { frame, nonce, dgs } => {
+            let datagrams: Vec<Datagram> = dgs
+                .iter()
+                .map(|d| {
+                    let len = match d.len_kind {
+                        0 => FRAG,
+                        1 => 0,
+                        2 => (d.len % 64) as usize,
+                        3 => FRAG + 1,
+                        _ => d.len as usize,
+                    };
+                    Datagram {
+                        sequence_id: resolve_b(p, &d.pkt, true) & PKT_MASK,
+                        channel_id: d.ch & 63,
+                        window_parent_lead: d.w,
+                        channel_parent_lead: d.h,
+                        fragment_id: if d.last == 0 { 0 } else { d.frag },
+                        fragment_id_last: d.last,
+                        data: vec![0xA5u8; len].into_boxed_slice(),
+                    }
+                })
+                .collect();
+            Frame::DataFrame(DataFrame { sequence_id: resolve_b(p, frame, false), nonce: *nonce, datagrams }).write().to_vec()
+        }
+        BFrame::Ack { fbase, pbase, groups } => {
+            let frame_acks = groups.iter().map(|g| AckGroup { base_id: resolve_b(p, &g.base, false), bitfield: g.bitfield, nonce: g.nonce_kind % 2 == 1 }).collect();
+            Frame::AckFrame(AckFrame { frame_window_base_id: resolve_b(p, fbase, false), packet_window_base_id: resolve_b(p, pbase, true), frame_acks }).write().to_vec()
+        }
+        BFrame::Sync { frame, packet } => Frame::SyncFrame(SyncFrame { next_frame_id: frame.as_ref().map(|s| resolve_b(p, s, false)), next_packet_id: packet.as_ref().map(|s| resolve_b(p, s, true)) }).write().to_vec(),
+        BFrame::Raw { bytes, fix_crc } => {
+            let mut b = bytes.clone();
+            if *fix_crc {
+                set_crc(&mut b);
+            }
+            b
+        }
+        BFrame::Disconnect => Frame::DisconnectFrame(DisconnectFrame {}).write().to_vec(),
+        BFrame::DisconnectAck => Frame::DisconnectAckFrame(DisconnectAckFrame {}).write().to_vec(),
+        BFrame::HandshakeError { nonce, code } => Frame::HandshakeErrorFrame(HandshakeErrorFrame {
+            nonce_ack: resolve_b(p, nonce, false),
+            error: match code % 3 {
+                0 => HandshakeErrorType::Version,
+                1 => HandshakeErrorType::Config,
+                _ => HandshakeErrorType::ServerFull,
+            },
+        })
+        .write()
+        .to_vec(),
+    }
+}
+
+fn run_world(c: &WorldCase) -> CaseResult {
+    let mut classes: Vec<&'static str> = vec!["layer_b"];
+    let clamp = |v: u32| v.clamp(1, 4 << 20);
+    let scfg = ServerCfg {
+        max_total: 4096,
+        max_active: 32,
+        handshake_errors: true,
+        ep: EpCfg { max_send_rate: c.server_send_rate.max(1), max_receive_rate: c.server_recv_rate.max(1), max_packet_size: clamp(c.server_packet_size).min(1_000_000), max_receive_alloc: clamp(c.server_alloc), keepalive: true, keepalive_interval_ms: 1000, active_timeout_ms: 20000 },
+    };
+    let ccfg = EpCfg { max_packet_size: clamp(c.client_packet_size).min(1_000_000), max_receive_alloc: clamp(c.client_alloc), keepalive_interval_ms: 1000, ..EpCfg::default() };
+    let mut w = World::new(c.seed, &scfg);
+    let mut raw: HashMap<SocketAddr, Peer> = HashMap::new();
+    let mut real: Vec<(usize, bool, Peer)> = Vec::new();
+    let mut seen_wire = 0usize;
+    let mut reached = 0u32;
+
+    macro_rules! observe {
+        () => {
+            while seen_wire < w.wire.len() {
+                let r = &w.wire[seen_wire];
+                seen_wire += 1;
+                if r.from == w.server_addr {
+                    if let Some(Frame::HandshakeSynAckFrame(f)) = Frame::read(&r.bytes) {
+                        if let Some(p) = raw.get_mut(&r.to) {
+                            p.victim_nonce = Some(f.nonce);
+                        }
+                    }
+                } else if let Some(Frame::HandshakeSynFrame(f)) = Frame::read(&r.bytes) {
+                    for (ci, _, p) in real.iter_mut() {
+                        if w.clients[*ci].addr == r.from {
+                            p.victim_nonce = Some(f.nonce);
+                        }
+                    }
+                }
+            }
+        };
+    }
+    macro_rules! step_all {
+        () => {
+            w.step_server();
+            for (ci, _, _) in real.iter() {
+                w.step_client(*ci);
+            }
+            observe!();
+        };
+    }
+
+    for op in c.ops.iter() {
+        match op {
+            BOp::Tick { dt_us } => {
+                w.advance(*dt_us as u64);
+                step_all!();
+            }
+            BOp::HostileSyn { addr, version, nonce, rate, size, alloc } => {
+                let a = raw_addr(*addr as u32);
+                raw.entry(a).or_default().attacker_nonce = Some(*nonce);
+                let f = Frame::HandshakeSynFrame(HandshakeSynFrame { version: *version, nonce: *nonce, max_receive_rate: *rate, max_packet_size: *size, max_receive_alloc: *alloc });
+                w.send_raw(a, w.server_addr, &f.write(), 0);
+                classes.push("hostile_syn");
+            }
+            BOp::HostileAck { addr } => {
+                let a = raw_addr(*addr as u32);
+                if let Some(n) = raw.get(&a).and_then(|p| p.victim_nonce) {
+                    w.send_raw(a, w.server_addr, &Frame::HandshakeAckFrame(HandshakeAckFrame { nonce_ack: n }).write(), 0);
+                    classes.push("hostile_handshake_completed");
+                }
+            }
+            BOp::ToServer { addr, frame } => {
+                let a = raw_addr(*addr as u32);
+                let p = raw.get(&a).cloned().unwrap_or_default();
+                let bytes = build_bframe(frame, &p);
+                if Frame::read(&bytes).is_some() && w.server_client_active(&a) {
+                    reached += 1;
+                    classes.push("hostile_frame_to_established_server_connection");
+                }
+                w.send_raw(a, w.server_addr, &bytes, 0);
+            }
+            BOp::ServerSend { addr, ch, mode, size } => {
+                let a = raw_addr(*addr as u32);
+                if let Some(server) = w.server.as_ref() {
+                    if let Some(rc) = server.client(&a) {
+                        // documented precondition: len <= the server's own max_packet_size
+                        let len = (*size as usize).min(scfg.ep.max_packet_size as usize);
+                        rc.borrow_mut().send(vec![7u8; len].into_boxed_slice(), (*ch % 64) as usize, mode_of(*mode));
+                        classes.push("server_send_to_hostile_peer");
+                    }
+                }
+            }
+            BOp::ServerDisconnect { addr, now } => {
+                let a = raw_addr(*addr as u32);
+                if let Some(server) = w.server.as_ref() {
+                    if let Some(rc) = server.client(&a) {
+                        if *now {
+                            rc.borrow_mut().disconnect_now()
+                        } else {
+                            rc.borrow_mut().disconnect()
+                        }
+                    }
+                }
+            }
+            BOp::StartClient { hostile_server } => {
+                if real.len() < 3 {
+                    let mut link = LinkState::default();
+                    if *hostile_server {
+                        // the genuine server never reaches this client: the harness plays the server
+                        link.blackout_until_us = [u64::MAX, u64::MAX];
+                    }
+                    let ci = w.add_client(&ccfg, link);
+                    real.push((ci, *hostile_server, Peer::default()));
+                    observe!();
+                }
+            }
+            BOp::HostileSynAck { k, nonce, rate, size, alloc } => {
+                if !real.is_empty() {
+                    let i = *k as usize % real.len();
+                    let (ci, _, p) = &mut real[i];
+                    if let Some(cn) = p.victim_nonce {
+                        p.attacker_nonce = Some(*nonce);
+                        let f = Frame::HandshakeSynAckFrame(HandshakeSynAckFrame { nonce_ack: cn, nonce: *nonce, max_receive_rate: *rate, max_packet_size: *size, max_receive_alloc: *alloc });
+                        let to = w.clients[*ci].addr;
+                        w.send_raw(w.server_addr, to, &f.write(), 0);
+                        classes.push("hostile_syn_ack");
+                    }
+                }
+            }
+            BOp::ToClient { k, frame } => {
+                if !real.is_empty() {
+                    let i = *k as usize % real.len();
+                    let (ci, _, p) = &real[i];
+                    let bytes = build_bframe(frame, p);
+                    let to = w.clients[*ci].addr;
+                    if Frame::read(&bytes).is_some() && w.clients[*ci].client.as_ref().map_or(false, |cl| cl.is_active()) {
+                        reached += 1;
+                        classes.push("hostile_frame_to_established_client");
+                    }
+                    w.send_raw(w.server_addr, to, &bytes, 0);
+                }
+            }
+            BOp::ClientSend { k, ch, mode, size } => {
+                if !real.is_empty() {
+                    let i = *k as usize % real.len();
+                    let ci = real[i].0;
+                    // documented precondition: len <= the client's own max_packet_size
+                    let len = (*size as usize).min(ccfg.max_packet_size as usize);
+                    w.client_send(ci, vec![9u8; len], *ch, *mode);
+                }
+            }
+            BOp::ClientDisconnect { k, now } => {
+                if !real.is_empty() {
+                    let i = *k as usize % real.len();
+                    if let Some(cl) = w.clients[real[i].0].client.as_mut() {
+                        if *now {
+                            cl.disconnect_now()
+                        } else {
+                            cl.disconnect()
+                        }
+                    }
+                }
+            }
+        }
+    }
+    // a few more steps so that queued hostile input is processed
+    for _ in 0..5 {
+        w.advance(20_000);
+        step_all!();
+    }
+    // ---- the server keeps serving: a fresh honest client completes an echo exchange -----------------
+    let honest_cfg = EpCfg { max_packet_size: 1000, max_receive_alloc: scfg.ep.max_packet_size.max(1000), keepalive_interval_ms: 1000, ..EpCfg::default() };
+    let servable = scfg.ep.max_receive_alloc >= 1000 && scfg.ep.max_packet_size >= 16;
+    if servable {
+        let ci = w.add_client(&honest_cfg, LinkState::default());
+        let mut connected = false;
+        let mut echoed = false;
+        let probe = world_payload(c.seed, 200, 0, 16);
+        for _ in 0..400 {
+            w.advance(20_000);
+            let sev = w.step_server();
+            for e in sev {
+                if let SEv::Receive(a, data) = e {
+                    if a == w.clients[ci].addr {
+                        if let Some(server) = w.server.as_ref() {
+                            if let Some(rc) = server.client(&a) {
+                                rc.borrow_mut().send(data, 0, uflow::SendMode::Reliable);
+                            }
+                        }
+                    }
+                }
+            }
+            w.flush_server();
+            for (k, _, _) in real.iter() {
+                w.step_client(*k);
+            }
+            for e in w.step_client(ci) {
+                match e {
+                    CEv::Connect => {
+                        connected = true;
+                        w.client_send(ci, probe.clone(), 0, 3);
+                    }
+                    CEv::Receive(d) if d[..] == probe[..] => echoed = true,
+                    _ => {}
+                }
+            }
+            if echoed {
+                break;
+            }
+        }
+        if !echoed {
+            return CaseResult::fail(
+                if connected { "oracle:c03:server_stopped_serving:no_echo" } else { "oracle:c03:server_stopped_serving:no_connect" },
+                format!("after the hostile phase a fresh honest client {} within 8 s (server cfg {:?}); client events: {:?}", if connected { "connected but its echo never came back" } else { "could not connect" }, scfg.ep, w.clients[ci].events.iter().map(|e| &e.2).collect::<Vec<_>>()),
+            );
+        }
+        classes.push("honest_echo_after_hostile_phase");
+    }
+    classes.sort();
+    classes.dedup();
+    CaseResult::ok(reached > 0, classes)
 }
